@@ -25,7 +25,7 @@ var statics = []string{"a", "b", "ab", "ba", "c"}
 // oddStatics start with bytes on every side of the wildcard markers in byte order ('*' = 0x2A, '{' = 0x7B): child
 // ordering and the param/catch-all child indexes of a node depend on where its static siblings sort.
 var oddStatics = []string{"a", "b", "ab", "c", "$", "!a", "(", "+b", "-", "0", "Z", "_a", "|", "~b", "GET", "GETS", "POST"} // verb names: method roots are keyed by them
-var hostLabels = []string{"a", "b", "ab", "c", "a-b"} // a-b: '-' sorts before '.' and '/' among the children of a node
+var hostLabels = []string{"a", "b", "ab", "c", "a-b"}                                                                       // a-b: '-' sorts before '.' and '/' among the children of a node
 
 func genSegment(s sim.Source, depth int, cfg PoolCfg, prevCatch bool) (seg string, isCatch bool) {
 	wildHeavy := cfg.WildHeavy
